@@ -74,6 +74,7 @@ ILLEGAL_POST = [["welcome", 99], ["abort", "noauth"], ["challenge"], ["other"]]
 
 def gen_c06_case(rng, fw):
     cfg = gen_cfg(rng)
+    cfg["bystander"] = rng.choice([0, 0, 0, 1, 2])      # a second session object in the process (see wamp_session.Bystander)
     sh = Shadow()
     ops = [["open"]]
     phase = []          # parallel list: phase tag of each op ('pre' | 'est' | 'post')
@@ -141,6 +142,11 @@ def gen_c06_case(rng, fw):
             ops.append(["abort", "noauth"])
         if rng.random() < 0.8:
             ops.append(["lost", rng.random() < 0.5])
+    # free text in the details of the router's GOODBYE / ABORT (plain, braces, format directives): it is data, nothing
+    # depends on it (third element of the op, an index into wamp_session.MESSAGES; the model has no such field)
+    for o in ops:
+        if o[0] in ("goodbye", "abort") and len(o) == 2 and rng.random() < 0.5:
+            o.append(rng.randrange(1, 9))
     # asyncio: loop iterations; mostly after every op (settled), sometimes sparse (two messages in one read)
     if fw == "aio":
         mode = rng.choice(["settled", "settled", "sparse", "none"])
@@ -206,12 +212,13 @@ def oracle_c06(fw, cfg, ops, res):
     session / one transport connection is judged in each life separately (_oracle_life); futures are followed across
     lives; the end-state clauses are judged at the end of the history."""
     trace = res["trace"]
+    iso = [(f"isolation/other-session-object-disturbed/{what}", text) for what, text in res.get("bystander") or []]
     starts = [i for i, o in enumerate(ops) if o[0] == "open" and any(p[0] == "lost" for p in ops[:i])
               and not _attached_before(ops, i)]
     bounds = [0] + starts + [len(ops)]
     glob = {"created": {}, "how": {}, "reg_req": {}, "dupreg": set(), "completed_at": {}, "rid": {}, "stale": set(), "life": 0,
             "sid0": any(o[0] == "welcome" and o[1] == 0 for o in ops)}
-    v = []
+    v = list(iso)
     zombie = None
     for k in range(len(bounds) - 1):
         a, b = bounds[k], bounds[k + 1]
@@ -446,9 +453,10 @@ def systematic_cases(fw, cfgs=None, spacings=(0, 1, 3), trim=False):
     convs = [
         [["open"], ["welcome", 1234], ["goodbye", "normal"], ["lost", True]],
         [["open"], ["welcome", 1234], ["leave", None], ["goodbye", "normal"], ["lost", True]],
-        [["open"], ["challenge"], ["welcome", 1234], ["goodbye", 3], ["lost", False]],
-        [["open"], ["abort", "noauth"], ["lost", False]],
-        [["open"], ["challenge"], ["abort", 7], ["lost", False]],
+        # (third element of goodbye / abort: free text in details["message"], here with braces / format directives)
+        [["open"], ["challenge"], ["welcome", 1234], ["goodbye", 3, 2], ["lost", False]],
+        [["open"], ["abort", "noauth", 5], ["lost", False]],
+        [["open"], ["challenge"], ["abort", 7, 3], ["lost", False]],
         [["open"], ["welcome", 1234], ["subscribe", 1, None], ["register", 2, None], ["subscribed", 1, 77],
          ["registered", 2, 55], ["turn"], ["unsubscribe", 0], ["unregister", 1], ["call", 3, [1], [], None],
          ["publish", 4, [], [], {"ack": True, "excl": None}], ["subscribe", 5, None], ["register", 6, None],
@@ -499,7 +507,7 @@ def api_after_end_cases(fw, trim=False):
             ["subscribe", 3, None], ["register", 4, None], ["unsubscribe", 0], ["unsubscribe", 1], ["unsubscribe", 2],
             ["unregister", 3], ["unregister", 4], ["cancel", 5], ["leave", None], ["disconnect"]]
     out = []
-    for cfg in (base, dict(base, lenient=True)):
+    for cfg in (dict(base, bystander=1), dict(base, lenient=True)):
         # trim (quick tier): the transport that accepts send() after close() differs only for the endings without loss
         for end in (ends[3:] if (trim and cfg["lenient"]) else ends):
             for api in apis:
@@ -520,7 +528,9 @@ def run(ck):
         "object (a new transport handed to the object after it lost the first one; random: 30%, systematic: two "
         "conversations); the matrix every API call (13: the six request kinds, unsubscribe of a non-last / last handler, "
         "unregister, cancel, leave, disconnect) x every ending (5) x transport behaviour (2) on a rich local state (two "
-        "handlers on one subscription id, a second subscription, two registrations, a pending request of four kinds).  "
+        "handlers on one subscription id, a second subscription, two registrations, a pending request of four kinds); free "
+        "text (plain / braces / format directives) in the details of the router's GOODBYE / ABORT; a second session object "
+        "alive in the same process with pending requests of its own, which must stay exactly as it was.  "
         "Each life is judged separately by the same per-life oracle.  Run on the real "
         "ApplicationSession under Twisted and asyncio and on the Gallina model; compared per op: callbacks (with the "
         "session id visible inside onLeave), messages sent, transport close, completion of every tracked future, API "
